@@ -176,6 +176,8 @@ def judgeResult (items : List (Kind × Nat × Bool)) (r : String) : Option Strin
         match items[i]? with
         | some (.timeout, _, _) => none
         | _ => some s!"asker {i} got a timeout from a call that has none"
+      else if v == "Tearly" then
+        some s!"asker {i} got ErrActorAskTimeout before its timeout had elapsed (the actor may still answer in time)"
       else if v.startsWith "V" then
         if (v.drop 1).toString.toNat? == some (replyFn i (payloadOf i)) then none
         else some s!"asker {i} received {v}, not the reply to its own request ({replyFn i (payloadOf i)})"
